@@ -11,6 +11,7 @@
 #include "crypt-port.h"
 #include "xv.h"
 #include "models/strings.h"
+#include "contracts/strcpy_or_abort.h"
 
 static const unsigned char spec_b64[65] =
   "./0123456789ABCDEFGHIJKLMNOPQRSTUVWXYZabcdefghijklmnopqrstuvwxyz";
@@ -28,6 +29,12 @@ void harness (void)
   XV_IN (size_t, nrbytes, nondet_size);
   XV_IN (size_t, osz, nondet_size);
   XV_ASSUME (nrbytes <= XV_MAXOBJ && osz >= 3 && osz <= 0x7fffffff);
+#ifdef XV_CASE_COND
+  XV_ASSUME (XV_CASE_COND);     /* one case of the job's exhaustive case split */
+#endif
+#ifdef OSZ_MAX
+  XV_ASSUME (osz <= OSZ_MAX);   /* stated domain bound of this job */
+#endif
   XV_IN_BYTES (rb, rbytes, nrbytes, 0);
   /* constant-size output object, arbitrary output_size: see
      harness/gensalt_sha.c for why this is sound for the frame clause */
@@ -201,5 +208,133 @@ void harness (void)
     XV_ASSERT ("C11,C13", (err == ERANGE) == (osz < 4), "ERANGE for a short buffer, otherwise EINVAL for a nonzero count");
   else
     XV_ASSERT ("C10", out[0] == '$' && out[1] == '3' && out[2] == '$' && out[3] == 0, "the setting is $3$");
+#endif
+
+#if defined M_yescrypt || defined M_gost_yescrypt || defined M_scrypt
+  /* logarithmic cost; salt = radix-64 of up to 64 random bytes */
+  size_t n = nrbytes > 64 ? 64 : nrbytes;
+  size_t saltlen = (n * 8 + 5) / 6;
+#if defined M_scrypt
+  const size_t plen = 3 + 1 + 5 + 5;                 /* $7$ N rrrrr ppppp */
+  bool costok = count == 0 || (count >= 6 && count <= 11);
+  unsigned long c = count == 0 ? 7 : count;
+  size_t need = 3 + 1 + 5 * 2 + saltlen + 1;
+#elif defined M_yescrypt
+  const size_t plen = 3 + 3 + 1;                     /* $y$ j N r $ */
+  bool costok = count <= 11;
+  unsigned long c = count == 0 ? 5 : count;
+  size_t need = 3 + 8 * 6 + 1 + saltlen + 1;
+#else
+  const size_t plen = 4 + 3 + 1;                     /* $gy$ j N r $ */
+  bool costok = count <= 11;
+  unsigned long c = count == 0 ? 5 : count;
+  size_t need = 4 + 8 * 6 + saltlen + 1 + 1;        /* yescrypt's own need plus the inserted g */
+#endif
+  bool argsok = costok && nrbytes >= 16;
+  XV_ASSERT ("C11,C12,C13", ok == (argsok && osz >= need),
+             "succeeds exactly for a documented count, >= 16 random bytes and a buffer of the documented size");
+  XV_ASSERT ("C13", need <= 192, "CRYPT_GENSALT_OUTPUT_SIZE suffices for up to 64 random bytes");
+  if (!ok)
+    {
+      XV_ASSERT ("C11,C12", err != EINVAL || !argsok, "EINVAL only for an out-of-range count or too few random bytes");
+      XV_ASSERT ("C13", err != ERANGE || osz < need, "ERANGE only when the buffer is too small");
+      if (err == EINVAL) XV_CANARY ("EINVAL path");
+      if (err == ERANGE) XV_CANARY ("ERANGE path");
+    }
+  else
+    {
+#if defined M_scrypt
+      /* N = 2^(c+7), r = 32, p = 1 in the $7$ fixed-width encoding */
+      XV_ASSERT ("C10", out[0] == '$' && out[1] == '7' && out[2] == '$', "tag $7$");
+      XV_ASSERT ("C11", out[3] == spec_b64[c + 7], "N = 2^(count+7), 0 selecting 7");
+      XV_ASSERT ("C11", out[4] == spec_b64[32] && out[5] == '.' && out[6] == '.' && out[7] == '.' && out[8] == '.',
+                 "r = 32 in 30 bits little-endian");
+      XV_ASSERT ("C11", out[9] == spec_b64[1] && out[10] == '.' && out[11] == '.' && out[12] == '.' && out[13] == '.',
+                 "p = 1 in 30 bits little-endian");
+#else
+      const unsigned char *pp = out + (plen - 4);
+      XV_ASSERT ("C10", out[0] == '$' && out[plen - 6] == 'y' && out[plen - 5] == '$' && pp[3] == '$', "tag and $ separators");
+#ifdef M_gost_yescrypt
+      XV_ASSERT ("C10", out[1] == 'g', "gost marker");
+#endif
+      XV_ASSERT ("C11", pp[0] == 'j', "yescrypt default flavor");
+      XV_ASSERT ("C11", pp[1] == spec_b64[(c < 3 ? c + 9 : c + 7) - 1] && pp[2] == spec_b64[(c < 3 ? 8 : 32) - 1],
+                 "(N, r) = (2^(c+9), 8) for c < 3, else (2^(c+7), 32); 0 selects 5");
+#endif
+      XV_ASSERT ("C10,C13", plen + saltlen < osz && plen + saltlen < 192 && out[plen + saltlen] == 0,
+                 "NUL-terminated at prefix + radix-64 length of the salt");
+      XV_ASSERT ("C12", saltlen >= 22, "at least 128 bits of salt");
+      /* arbitrary 3-byte group of the salt */
+      XV_IN (size_t, gk, nondet_size);
+      XV_ASSUME (gk < 22 && 3 * gk < n);
+      unsigned long v = rb[3 * gk];
+      size_t nch = 2;
+      if (3 * gk + 1 < n) { v |= (unsigned long) rb[3 * gk + 1] << 8; nch = 3; }
+      if (3 * gk + 2 < n) { v |= (unsigned long) rb[3 * gk + 2] << 16; nch = 4; }
+      const unsigned char *sp = out + plen + 4 * gk;
+      XV_ASSERT ("C12", sp[0] == spec_b64[v & 63] && sp[1] == spec_b64[(v >> 6) & 63]
+                 && (nch < 3 || sp[2] == spec_b64[(v >> 12) & 63]) && (nch < 4 || sp[3] == spec_b64[(v >> 18) & 63]),
+                 "salt group k is the injective radix-64 encoding of random bytes 3k..3k+2");
+      XV_ASSERT ("C10", xv_passwd_safe (sp[0]) && xv_passwd_safe (sp[1]) && (nch < 3 || xv_passwd_safe (sp[2]))
+                 && (nch < 4 || xv_passwd_safe (sp[3])), "salt characters passwd-safe");
+      XV_ANY_INDEX (k, anyk, plen);
+      XV_ASSERT ("C10", xv_passwd_safe (out[k]), "prefix characters passwd-safe");
+      XV_CANARY ("group check reached");
+    }
+#endif
+
+#ifdef M_sha1crypt
+  bool argsok = nrbytes >= 16;
+  if (!ok)
+    {
+      XV_ASSERT ("C12", err != EINVAL || !argsok, "EINVAL only for fewer than 16 random bytes");
+      XV_ASSERT ("C13", !(err == ERANGE && osz >= 192 && nrbytes <= 64), "ERANGE never for the documented buffer size (nrbytes <= 64)");
+      if (err == EINVAL) XV_CANARY ("EINVAL path");
+      if (err == ERANGE) XV_CANARY ("ERANGE path");
+    }
+  else
+    {
+      XV_ASSERT ("C12", argsok, "success needs 16 random bytes");
+      unsigned long c = count == 0 ? 262144 : count;
+      if (c < 4) c = 4;
+      if (c > 0xFFFFFFFFul) c = 0xFFFFFFFFul;
+      static const char pfx[7] = "$sha1$";
+      bool pfxok = true;
+      for (unsigned i = 0; i < 6; i++)
+        if (out[i] != (unsigned char) pfx[i]) pfxok = false;
+      XV_ASSERT ("C10", pfxok, "begins with $sha1$");
+#ifndef XV_NATIVE
+      XV_ASSERT ("C11", xv_dec_n == 1 && xv_dec_log[0].at == (const char *) out + 6, "iteration count printed at offset 6");
+      unsigned long long N = xv_dec_log[0].v;
+      unsigned nd = xv_dec_log[0].nd;
+      XV_ASSERT ("C11", xv_dec_field_is (out + 6, N, nd), "iteration field is the canonical decimal");
+#else
+      unsigned long long N = 0; unsigned nd = 0;
+      while (nd < 10 && xv_is_digit (out[6 + nd])) { N = N * 10 + (out[6 + nd] - '0'); nd++; }
+#endif
+      XV_ASSERT ("C11", N <= c && N > c - c / 4, "iterations in (c - c/4, c], c = clamp(count ? count : 262144, 4, 2^32-1)");
+      XV_ASSERT ("C10", out[6 + nd] == '$', "$ after the iteration count");
+      /* salt: G groups of 4 characters from random bytes 4.., at most 64
+         characters, then $ NUL */
+      size_t g_rb = (nrbytes - 4 - 1) / 3;          /* groups for which a further byte exists (documented: 72 bits from 16 bytes) */
+      size_t G = g_rb < 15 ? g_rb : 15;
+      XV_ASSERT ("C12", G >= 3, "at least 72 bits of salt");
+      XV_IN (size_t, gk, nondet_size);
+      XV_ASSUME (gk < 15);
+      const unsigned char *sp = out + 6 + nd + 1;
+      if (gk < G && 6 + nd + 1 + 4 * G + 1 < osz)
+        {
+          unsigned long v = ((unsigned long) rb[4 + 3 * gk] << 16) | ((unsigned long) rb[4 + 3 * gk + 1] << 8) | rb[4 + 3 * gk + 2];
+          XV_ASSERT ("C12", sp[4 * gk] == spec_b64[v & 63] && sp[4 * gk + 1] == spec_b64[(v >> 6) & 63]
+                     && sp[4 * gk + 2] == spec_b64[(v >> 12) & 63] && sp[4 * gk + 3] == spec_b64[(v >> 18) & 63],
+                     "salt group k is the injective radix-64 encoding of random bytes 4+3k..4+3k+2");
+          XV_CANARY ("group check reached");
+        }
+      if (osz >= 192 && nrbytes <= 64)
+        {
+          XV_ASSERT ("C10,C13", sp[4 * G] == '$' && sp[4 * G + 1] == 0 && 6 + nd + 1 + 4 * G + 1 < 192,
+                     "salt followed by $ NUL, shorter than CRYPT_GENSALT_OUTPUT_SIZE");
+        }
+    }
 #endif
 }
